@@ -42,6 +42,37 @@ from symmray import block_core as BC  # noqa: E402
 from symmray import fermionic_core as FC  # noqa: E402
 from symmray import linalg as LA  # noqa: E402
 from symmray import symmetries as SY  # noqa: E402
+import symmray.scipy.linalg  # noqa: E402,F401  (registers "linalg.expm")
+
+
+def expm_stub(b):
+    """Stand-in for the dense kernel ``scipy.linalg.expm`` (scipy is not
+    installed in /venv): scaling and squaring of a Taylor series, pure numpy,
+    deterministic. symmray's block-wise ``expm`` itself is the real code."""
+    b = np.asarray(b)
+    if b.ndim != 2 or b.shape[0] != b.shape[1]:
+        raise ValueError("expected a square matrix")
+    n = b.shape[0]
+    if b.dtype.kind not in "fc":
+        b = b.astype(np.float64)
+    if n == 0:
+        return b.copy()
+    nrm = float(np.linalg.norm(b, 1))
+    if not np.isfinite(nrm):
+        return np.full_like(b, np.nan)
+    s = max(0, int(np.ceil(np.log2(nrm))) + 1) if nrm > 0 else 0
+    a = b / b.dtype.type(2 ** s)
+    out = np.eye(n, dtype=b.dtype)
+    term = np.eye(n, dtype=b.dtype)
+    for k in range(1, 19):
+        term = (term @ a) / b.dtype.type(k)
+        out = out + term
+    for _ in range(s):
+        out = out @ out
+    return out
+
+
+ar.register_function("numpy", "scipy.linalg.expm", expm_stub)
 
 
 class SimCrash(BaseException):
